@@ -111,6 +111,32 @@ pub fn handle2(cmd: &str, args: &[Sexp]) -> Option<Result<String, String>> {
                 let r = show(code.exec_unscoped(&mut interp), false);
                 Ok(format!("[{} {}]", r, vars_to_string(&interp, &names)))
             }
+            // (host-call-unscoped (names..) "prelude" fname v1 v2 ..): a host interpreter runs the prelude
+            // unscoped (defining fname and the observed names), then the host calls fname through
+            // Function::create_call(..).exec_unscoped(&mut host): result and the observed names afterwards
+            "host-call-unscoped" => {
+                let L(names) = &args[0] else { return Err("names".into()) };
+                let names = strs(names)?;
+                let S(p) = &args[1] else { return Err("prelude".into()) };
+                let (A(fname) | S(fname)) = &args[2] else { return Err("function name".into()) };
+                let mut interp = Interpreter::with_stdlib();
+                let code = match Code::parse(&interp, p) {
+                    Ok(c) => c,
+                    Err(e) => return Ok(format!("reject {}", variant_name(&e))),
+                };
+                if let Err(e) = code.exec_unscoped(&mut interp) {
+                    return Ok(format!("err {}", variant_name(&e)));
+                }
+                let before = vars_to_string(&interp, &names);
+                let Some(Variable::Function(f)) = interp.get_variable(fname).cloned() else { return Err("not a function".into()) };
+                let vs: Vec<Variable> = args[3..].iter().map(val_of_sexp).collect::<Result<_, _>>()?;
+                let call = match f.create_call(vs) {
+                    Ok(c) => c,
+                    Err(e) => return Ok(format!("reject {}", variant_name(&e))),
+                };
+                let r = show(call.exec_unscoped(&mut interp), false);
+                Ok(format!("{} || before {} || after {}", r, before, vars_to_string(&interp, &names)))
+            }
             // (exec-twice "program"): exec is repeatable and does not touch the parse interpreter
             "exec-twice" => {
                 let S(p) = &args[0] else { return Err("program".into()) };
